@@ -122,11 +122,26 @@ func (e httpEnv) sexp() sexp.Node {
 	for _, p := range e.Params {
 		ps = append(ps, sexp.L(sexp.Str(p[0]), sexp.Str(p[1])))
 	}
-	eff, early := e.effectiveBody()
-	if early {
-		return sexp.T("http", sexp.Str(e.Method), sexp.Str(media), sexp.L(ps...), sexp.Str(eff), sexp.Sym("ends-early"))
+	// with a framing: the bytes SENT and the framing; the model works out what the handler can read
+	switch e.Framing {
+	case "":
+		return sexp.T("http", sexp.Str(e.Method), sexp.Str(media), sexp.L(ps...), sexp.Str(e.Body))
+	case "cl-short":
+		return sexp.T("http", sexp.Str(e.Method), sexp.Str(media), sexp.L(ps...), sexp.Str(e.Body), sexp.T("cl", sexp.Int(len(e.Body)-1)))
+	case "cl-long":
+		return sexp.T("http", sexp.Str(e.Method), sexp.Str(media), sexp.L(ps...), sexp.Str(e.Body), sexp.T("cl", sexp.Int(len(e.Body)+7)))
 	}
-	return sexp.T("http", sexp.Str(e.Method), sexp.Str(media), sexp.L(ps...), sexp.Str(eff))
+	var sizes []sexp.Node
+	switch e.Framing {
+	case "chunked-1":
+		for i := 0; i < len(e.Body); i++ {
+			sizes = append(sizes, sexp.Int(1))
+		}
+	case "chunked-3":
+		a, c := len(e.Body)/3, 2*len(e.Body)/3
+		sizes = []sexp.Node{sexp.Int(a), sexp.Int(c - a)}
+	}
+	return sexp.T("http", sexp.Str(e.Method), sexp.Str(media), sexp.L(ps...), sexp.Str(e.Body), sexp.T("chunked", sizes...))
 }
 
 type wsEnv struct {
